@@ -104,10 +104,10 @@ def tla_module(g, base="FitCache", name="FCRun"):
     return "\n".join(lines) + "\n"
 
 
-def cfg_constants(g, dea, depth, max_sources=2, off=(), faults=(), cons=("c1", "c2")):
+def cfg_constants(g, dea, depth, max_sources=2, off=(), faults=(), cons=("c1", "c2"), obs_filter=()):
     return {"FitType": _s(g["ftype"]), "GNodes": ("<-", "XNodes"), "GKind": ("<-", "XKind"), "GChildren": ("<-", "XChildren"),
             "GHidden": ("<-", "XHidden"), "GBasic": ("<-", "XBasic"), "GDataNodes": ("<-", "XDataNodes"),
             "GModelErr": ("<-", "XModelErr"), "GProjected": ("<-", "XProjected"), "GParams": ("<-", "XParams"),
             "GCostNoErr": _s(g["cost_noerr"]), "GCostCov": _s(g["cost_cov"]), "GCostPoint": _s(g["cost_point"]),
             "GInitCost": _s(g["init_cost"]), "NData": ("<-", "XNData"), "SrcNames": ("<-", "XSrcNames"),
-            "ConNames": list(cons), "Dea": _s(dea), "MaxSources": max_sources, "MaxDepth": depth, "Off": list(off), "Faults": list(faults)}
+            "ConNames": list(cons), "Dea": _s(dea), "MaxSources": max_sources, "MaxDepth": depth, "Off": list(off), "Faults": list(faults), "ObsFilter": list(obs_filter)}
